@@ -241,6 +241,69 @@ def doc_wrap(policy, rng):
     return fm + pre + (fence % policy) + mid
 
 
+# ------------------------------------------------------------------ front-matter fence family (C27)
+
+UNICODE_WS = [0x09, 0x0A, 0x0B, 0x0C, 0x0D, 0x20, 0x85, 0xA0, 0x1680] + list(range(0x2000, 0x200B)) + [0x2028, 0x2029, 0x202F, 0x205F, 0x3000]
+# characters that are not line endings for Markdown (a line ending inside a "fence line" just starts another line)
+FENCE_TRAIL = [c for c in UNICODE_WS if c not in (0x0A, 0x0D)] + [0x200B, 0xFEFF, 0x00]
+
+
+def front_matter_family(rng, extra):
+    """Markdown documents around the front-matter fences: every Unicode White_Space code point (and mixed
+    runs) after the opening and after the closing fence, leading whitespace, fences of 2-5 characters,
+    the three line endings, closing fence missing / present / present with trailing junk / wrong marker,
+    in the first line and elsewhere.  A systematic part plus `extra` random combinations."""
+    r = rng
+    body = "policy-version: 2"
+    tail = "\n```policy\nlet a = 1\n```\n"
+    docs = []
+    for marker in ("---", "+++"):
+        for eol in ("\n", "\r\n", "\r"):
+            for c in FENCE_TRAIL:
+                w = chr(c)
+                for end in (eol, ""):                      # closing fence followed by a line ending / by end of input
+                    docs.append(marker + eol + body + eol + marker + w + end)
+                docs.append(marker + eol + body + eol + marker + w + eol + tail.replace("\n", eol))
+                docs.append(marker + w + eol + body + eol + marker + eol)          # after the opening fence
+                docs.append(marker + w + eol + body + eol)                          # ... and never closed
+            # closing fence: missing, exact, with junk, longer, shorter, other marker, indented; eof variants
+            other = "+++" if marker == "---" else "---"
+            for close in ("", marker, marker + " x", marker + "x", marker + marker[0], marker + marker[:2], marker[:2], other,
+                          " " + marker, "\t" + marker, marker + " \t ", marker + "\t\t"):
+                for end in (eol, "", eol + eol):
+                    docs.append(marker + eol + body + eol + close + end)
+                docs.append(marker + eol + body + eol + close + eol + tail.replace("\n", eol))
+            # opening fence variants
+            for opn in (" " + marker, "\t" + marker, marker + marker[0], marker + marker[:2], marker[:2], "\ufeff" + marker,
+                        eol + marker, marker + " ", marker + "\t \t"):
+                docs.append(opn + eol + body + eol + marker + eol)
+                docs.append(opn + eol + body + eol)
+            docs.append(marker)
+            docs.append(marker + eol)
+            docs.append(marker + eol + marker)
+            docs.append(marker + eol + marker + eol)
+            docs.append(marker + eol + eol + marker + eol + tail)
+    for _ in range(extra):
+        marker = r.choice(["---", "+++", "----", "--", "+++++", "***"])
+        eol = r.choice(["\n", "\n", "\r\n", "\r"])
+
+        def run():
+            return "".join(chr(r.choice(FENCE_TRAIL)) for _ in range(r.choice([0, 1, 1, 2, 3])))
+        lead = r.choice(["", "", "", " ", "\t", "\u00a0", "\ufeff", "\ufeff", "\ufeff\ufeff", "\ufeff "])
+        opn = lead + marker + run()
+        close_marker = r.choice([marker, marker, marker, "---", "+++", marker + marker[0], marker[:-1]])
+        close = r.choice(["", "", " ", "\u2003"]) + close_marker + run() + r.choice(["", "", "", "x", " y"])
+        n_lines = r.choice([0, 1, 1, 2])
+        mid = eol.join([body] + ["k%d: v" % i for i in range(n_lines)])
+        doc = opn + eol + mid + eol + (close + r.choice([eol, "", eol + eol]) if r.chance(4, 5) else "")
+        if r.chance(1, 2):
+            doc += tail.replace("\n", eol)
+        if r.chance(1, 8):
+            doc = "intro" + eol + doc                       # the fence is not on the first line
+        docs.append(doc)
+    return docs
+
+
 def tower(kind, depth):
     """nesting towers: text whose parse recursion depth is about `depth`"""
     if kind == "paren":
@@ -314,6 +377,9 @@ def generate_cases(repo, rng, count):
         ("S", PRELUDE + "function q(e struct Envelope) int { let x = Foo { a: 1, ...e }\n return 1 }", "fixed:envelope-spread"),
     ]
     cases += fixed
+    fm_docs = front_matter_family(r.fork(), max(300, count // 12))
+    cases += [("D", d, "frontmatter:family") for d in fm_docs]
+    count += len(fm_docs)
     top_rules = ["top_level_statement", "function_definition", "action_definition", "command_definition", "struct_definition",
                  "fact_definition", "effect_definition", "enum_definition", "global_let_statement", "finish_function_definition"]
     while len(cases) < count:
